@@ -78,6 +78,10 @@ def apply_history(H, W, hist, ctor_kwargs=None):
                 a[r0, c0] = block[0]            # a[r, c] = one character (str or FmtStr), the quantifier's second spelling
             elif int_index:
                 a[r0, c0:c1] = block
+            elif c0 == 0 and c1 == W and W > 0 and step % 3 == 1:
+                a[r0:r1, :] = block             # whole rows: the column part spelled as a bare colon ...
+            elif c0 == 0 and c1 == W and W > 0 and step % 3 == 2 and not isinstance(block, str):
+                a[r0:r1] = block                # ... or left out altogether
             else:
                 a[r0:r1, c0:c1] = block
             raised = None
@@ -220,6 +224,8 @@ def _rand_history(seed):
         r1 = rng.randint(r0, h + 2)
         c0 = rng.randint(0, W)
         c1 = rng.randint(c0, W)
+        if rng.random() < .25:
+            c0, c1 = 0, W                   # whole rows (applied as a[r0:r1, :] / a[r0:r1] on every 2nd / 3rd step)
         int_index = rng.random() < .15
         if int_index:
             r1 = r0 + 1
